@@ -38,6 +38,9 @@ setup)
     main_bin >/dev/null || { echo "HARNESS-ERROR: simulator build failed" >&2; exit 2; }
     if [ -x "$VERIF_DIR/variants.sh" ]; then "$VERIF_DIR/variants.sh" build-quick || exit 2; fi
     if [ -d "$VERIF_DIR/threads" ]; then (cd "$VERIF_DIR/threads" && RUSTFLAGS="$HOOKS" cargo build --offline --release >/dev/null 2>&1) || { echo "HARNESS-ERROR: hpsim-threads build failed" >&2; exit 2; }; fi
+    # Miri engine: build its sysroot and both interpreted builds once, so quick checks do not pay for it
+    (cd "$SIM" && MIRIFLAGS="-Zmiri-disable-isolation" RUSTFLAGS="$HOOKS" cargo +nightly miri run --offline --target-dir "$SIM/target-miri" -- miri C01 0 0 >/dev/null 2>&1) || echo "warning: Miri engine (sim) did not build" >&2
+    (cd "$VERIF_DIR/sim-shadow" && MIRIFLAGS="-Zmiri-disable-isolation" RUSTFLAGS="$HOOKS --cfg hp_rt -C target-feature=+sse4.2,+avx2" cargo +nightly miri run --offline --target-dir "$VERIF_DIR/sim-shadow/target-miri" -- miri C01 0 0 >/dev/null 2>&1) || echo "warning: Miri engine (sim-shadow) did not build" >&2
     echo "setup ok"
     ;;
 check)
